@@ -10,6 +10,9 @@ for pid in IDS:
     if not os.path.exists(path):
         na.append(dict(property_id=pid, reason="no check registered yet: model/correspondence for this property is not built (see DESIGN.md section 11 for status)"))
         continue
+    if not os.path.exists(os.path.join("coq", "props", pid + ".v")):
+        na.append(dict(property_id=pid, reason="check under construction: harness module exists but the theorem file coq/props/%s.v is not written yet" % pid))
+        continue
     m = importlib.import_module("harness.props." + pid)
     if getattr(m, "NOT_READY", False):
         na.append(dict(property_id=pid, reason=m.NOT_READY))
